@@ -169,8 +169,9 @@ func c14run(t *testing.T, rep *lib.Report, h []c14step, chunk uint64, uploadAfte
 			panic(err)
 		}
 		defer os.RemoveAll(dir)
+		// scan parallelism 1 or 2 (by chunk size parity): with 1, a context holds more repositories than scanner slots
 		opts := []core.PurgeOption{core.WithPurgeLocalStore(dir), core.WithPurgeLogger(nopLogger), core.WithPurgeIndexChunkSize(chunk),
-			core.WithPurgeExtraContexts([]context2.Stores{cw.extra.Stores()}), core.WithPurgeParallel(2)}
+			core.WithPurgeExtraContexts([]context2.Stores{cw.extra.Stores()}), core.WithPurgeParallel(1 + int(chunk%2))}
 		var idx *core.PurgeIndex
 		var ierr error
 		if !lib.Await(func() { idx, ierr = core.PurgeBuildReverseIndex(cw.w.Stores(), opts...) }, 24*time.Hour) {
@@ -412,7 +413,7 @@ func TestC14(t *testing.T) {
 			jobs = append(jobs, job{h: h, chunk: uint64(c), after: c%2 == 0})
 		}
 	}
-	rep.Rule = fmt.Sprintf("(a) all histories of <=%d steps over {upload A / A' (shares a leaf with A) / C to r1, r2 or a repo of an extra context sharing the blob store; delete last bundle; squash} x every index chunk size 1..#keys+1 (alternating with/without an upload between index build and delete-unused), blobs aged one fake second: union of chunk files = exactly the referenced roots+leaves, no key twice, one header time = index time; after delete-unused the blob store = referenced + newer-than-index; (a') 4 first histories (two with a 12-leaf file: >10 chunks at chunk size 1) x 6 further upload sequences x chunk sizes {1,2,3,7}: index, more uploads, index again with the resume option: again exactly the referenced keys, each once, one header time, delete-unused keeps every referenced blob; (b) 2..3 PurgeLock contenders (+force, +unlock) under all interleavings; distinct = distinct (history, chunk size)", depth)
+	rep.Rule = fmt.Sprintf("(a) all histories of <=%d steps over {upload A / A' (shares a leaf with A) / C to r1, r2 or a repo of an extra context sharing the blob store; delete last bundle; squash} x every index chunk size 1..#keys+1 (alternating with/without an upload between index build and delete-unused, and scan parallelism 2 / 1, i.e. as many / fewer scanner slots than repositories of a context), blobs aged one fake second: union of chunk files = exactly the referenced roots+leaves, no key twice, one header time = index time; after delete-unused the blob store = referenced + newer-than-index; (a') 4 first histories (two with a 12-leaf file: >10 chunks at chunk size 1) x 6 further upload sequences x chunk sizes {1,2,3,7}: index, more uploads, index again with the resume option: again exactly the referenced keys, each once, one header time, delete-unused keeps every referenced blob; (b) 2..3 PurgeLock contenders (+force, +unlock) under all interleavings; distinct = distinct (history, chunk size)", depth)
 	parent := lib.RunCases(t, rep, "TestC14", len(jobs), 0, 180*time.Second, func(i int) {
 		if jobs[i].then != nil {
 			c14resume(t, rep, jobs[i].h, jobs[i].then, jobs[i].chunk)
